@@ -18,7 +18,7 @@ core = simproc.core
 ID = "C05"
 LEVEL = "exploration"
 BATCH = 50
-PROBES_EXPECTED = ['probe:selection-changed', 'probe:load-handwritten', 'probe:user-pick-invisible', 'probe:checkpoint']
+PROBES_EXPECTED = ['probe:pick-known-to-model', 'probe:selection-changed', 'probe:load-handwritten', 'probe:user-pick-invisible', 'probe:checkpoint']
 TIERS = {"quick": {"runs": 12000, "wall": 50}, "thorough": {"runs": 500000, "wall": 840}}
 RULE = ("each run draws a program with >=1 choice (named/unnamed, conditional members and defaults, `if` inside the choice), knobs (parser, "
         "policy, set-order salt) and a history of 3-30 operations biased towards member assignments and the options member/default conditions "
@@ -69,10 +69,67 @@ def summarize(sc):
     return s
 
 
-def expected_selection(c):
-    """The property's rule, evaluated with the node's own visibility/conditions."""
-    if c._user_selection is not None and c._user_selection.visibility:
-        return c._user_selection
+UNKNOWN = "<unknown>"
+
+
+class PickModel:
+    """Bookkeeping model of 'the user's pick' per choice, kept from the history alone (a map, nothing else).
+    Definite after: set member y; Choice.unset_value(); reset of a member; reset of the whole tree; a *replacing* load of a
+    hand-written file (last y entry of the choice wins, no y entry = no pick).  Everything else (member set n / unset,
+    reset of a sub-menu, merges, tool-written files, restarts) makes the affected picks unknown; the monitor then
+    falls back to the node's own record, so the model can only add demands it is sure of."""
+
+    def __init__(self, k):
+        self.member_choice = {m.name: i for i, c in enumerate(k.unique_choices) for m in c.syms}
+        self.pick = {i: None for i in range(len(k.unique_choices))}
+
+    def all_unknown(self):
+        for i in self.pick:
+            self.pick[i] = UNKNOWN
+
+    def apply(self, op, hand):
+        kind = op[0]
+        if kind == "set":
+            i = self.member_choice.get(op[1])
+            if i is not None:
+                if op[2] == "y":
+                    self.pick[i] = op[1]
+                elif self.pick[i] in (op[1], UNKNOWN):
+                    self.pick[i] = UNKNOWN
+        elif kind == "unset":
+            i = self.member_choice.get(op[1])
+            if i is not None and self.pick[i] in (op[1], UNKNOWN):
+                self.pick[i] = UNKNOWN
+        elif kind == "cunset":
+            if self.pick:
+                self.pick[op[1] % len(self.pick)] = None
+        elif kind == "reset":
+            i = self.member_choice.get(op[1])
+            if i is not None:
+                self.pick[i] = None
+        elif kind == "reset_menu":
+            self.all_unknown()
+        elif kind == "load_hand" and hand and op[2]:
+            text = hand[op[1] % len(hand)]
+            newpick = {i: None for i in self.pick}
+            for ln in text.splitlines():
+                ln = ln.strip()
+                if ln.startswith("CONFIG_") and "=" in ln:
+                    name, val = ln[len("CONFIG_"):].split("=", 1)
+                    i = self.member_choice.get(name)
+                    if i is not None and val.startswith("y"):
+                        newpick[i] = name
+            self.pick = newpick
+        elif kind in ("load", "load_hand", "restart"):
+            self.all_unknown()
+
+
+def expected_selection(c, pick=UNKNOWN):
+    """The property's rule, evaluated with the node's own visibility/conditions; `pick` is the model's
+    knowledge of the user's pick (UNKNOWN: take the node's record)."""
+    user = c._user_selection if pick is UNKNOWN else (c.kconfig.syms[pick] if pick else None)
+    if user is not None and user.visibility:
+        return user
     for s, cond in c.defaults:
         if core.expr_value(cond) and s.visibility:
             return s
@@ -82,7 +139,7 @@ def expected_selection(c):
     return None
 
 
-def monitor(k, ctx, where):
+def monitor(k, ctx, where, model=None):
     sel_vec = []
     with simproc.quiet():
         for ci, c in enumerate(k.unique_choices):
@@ -95,9 +152,13 @@ def monitor(k, ctx, where):
                     ctx.violate(f"C05/not-exactly-one/{'none' if not ys else 'several'}",
                                 f"{where}: visible choice #{ci} with visible members {[s.name for s in vm]} has y members {[s.name for s in ys]}")
                     continue
-                exp = expected_selection(c)
+                pick = model.pick.get(ci, UNKNOWN) if model is not None else UNKNOWN
+                exp = expected_selection(c, pick)
+                if pick is not UNKNOWN:
+                    ctx.counters["probe:pick-known-to-model"] += 1
                 if ys[0] is not exp:
-                    why = ("user-pick-visible" if (c._user_selection is not None and c._user_selection.visibility) else
+                    why = ("stale-user-pick" if (pick is None and c._user_selection is ys[0]) else
+                           "user-pick-visible" if (c._user_selection is not None and c._user_selection.visibility) else
                            "default" if any(core.expr_value(cond) and s.visibility for s, cond in c.defaults) else "first-visible")
                     ctx.violate(f"C05/wrong-member/{why}", f"{where}: choice #{ci}: y member {ys[0].name}, rule gives {exp.name if exp else None}")
                 others = [s.name for s in c.syms if s is not ys[0] and s.str_value != "n"]
@@ -143,13 +204,15 @@ def checkpoint(k, ctx, where):
 def execute(sc, ctx):
     sb = ctx.fresh_dir()
     node = ops.KNode(sb, kgen.render(sc["prog"]), parser=sc["parser"], policy=sc["policy"])
-    vecs = [monitor(node.k, ctx, "initial")]
+    model = PickModel(node.k)
+    vecs = [monitor(node.k, ctx, "initial", model)]
     cps = set(sc.get("checkpoints", []))
     if 0 in cps:
         checkpoint(node.k, ctx, "initial")
 
     def after(i, op):
-        vecs.append(monitor(node.k, ctx, f"after op {i} {op[:3]}"))
+        model.apply(op, sc["hand"])
+        vecs.append(monitor(node.k, ctx, f"after op {i} {op[:3]}", model))
         if op[0] == "load_hand":
             ctx.counters["probe:load-handwritten"] += 1
         if (i + 1) in cps:
